@@ -19,12 +19,13 @@ MOD = "mc.props.c14"
 DATA = {
     "A": dict(nv=6, nq=2, na=1, lattice="power", system="orthorhombic", compset="minimal", static="generic", weights="increasing",
               qha=dict(T_MIN=0, NT=3, DT=500, DT_SAMPLE=500, NTV=21, DELTA_P=2.0, DELTA_P_SAMPLE=2.0),
-              output={"pressure_base": ["cij", "bm_VRH", "G_VRH", "v", "vs", "vp"], "volume_base": ["p"]}),
+              output={"pressure_base": ["cij", "bm_VRH", "G_VRH", "v", "vs", "vp", {"keyword": "G_R", "unit": "kbar"}],
+                      "volume_base": ["p", "bm_V", {"keyword": "v_p", "unit": "m/s"}, "cij_t"]}),
     "B": dict(nv=5, nq=3, na=2, lattice="tab", system="trigonal7", compset="minimal", static="cubicfit", weights="scaled",
               interpolator="spline", order=3,
               qha=dict(T_MIN=100, NT=2, DT=700, DT_SAMPLE=700, NTV=25, DELTA_P=1.0, DELTA_P_SAMPLE=1.0, P_MIN=1),
               output={"pressure_base": ["cij_t", "cij", {"keyword": "bm_V", "unit": "kbar"}, {"keyword": "v_p", "fname": "vp_custom.txt"}],
-                      "volume_base": ["p", "G_R"]}),
+                      "volume_base": ["p", "G_R", "vp", "cij"]}),
     "C": dict(nv=4, nq=1, na=2, lattice="none", system="cubic", compset="minimal", static="generic", weights="equal",
               qha=dict(T_MIN=0, NT=2, DT=300, DT_SAMPLE=300, NTV=17, DELTA_P=3.0, DELTA_P_SAMPLE=3.0),
               output={"pressure_base": ["cij", "v"]}),
@@ -215,6 +216,20 @@ def run_history(case):
                     nchecks += 1
                     if sorted(once.columns) != sorted(twice.columns) or not numpy.allclose(once[sorted(once.columns)].to_numpy(float), twice[sorted(once.columns)].to_numpy(float), rtol=1e-9, atol=0):
                         viol.append(V("c14:fill-not-idempotent", f"filling an already filled cubic table changes it: {sorted(once.columns)} -> {sorted(twice.columns)}"))
+                elif op[0] == "static":
+                    # another cij command earlier in the same interpreter (process history)
+                    from click.testing import CliRunner
+                    from cij.cli.static import main as static_main
+                    args = [os.path.join(d, "A", "input01"), os.path.join(d, "A", "elast.dat"), "-I", "volume", "-n", "21"]
+                    r = CliRunner().invoke(static_main, args)
+                    if r.exit_code != 0:
+                        viol.append(V("c14:history:raises:static", f"step {n}: run-static failed: {r.exception!r}"))
+                elif op[0] == "fillcli":
+                    from click.testing import CliRunner
+                    from cij.cli.fill import main as fill_main
+                    r = CliRunner().invoke(fill_main, [os.path.join(d, "C", "elast.dat"), "-s", "cubic"])
+                    if r.exit_code != 0:
+                        viol.append(V("c14:history:raises:fillcli", f"step {n}: cij fill failed: {r.exception!r}"))
                 elif op[0] == "cfg":
                     from cij.io.config import apply_default_config
                     cfg = apply_default_config({})
@@ -256,7 +271,7 @@ def valid_histories(alphabet, depth):
 def explore(ctx):
     ctx.rule = ("subprocess space: `cij run` under PYTHONHASHSEED in {0,1,2} (quick; full product for data set A, seed 1 for B and C) / "
                 "{0..15, random} (thorough) x 6 working-directory situations (incl. started elsewhere next to decoy inputs) x 3 data sets, outputs byte-compared with a golden run; history space: all valid operation sequences of "
-                "depth <=3 (quick) / <=4 (thorough) over {new A/B, read(x, p), write(x), fill, cfg} on real objects in long-lived workers, "
+                "depth <=3 (quick) / <=4 (thorough) over {new A/B, read(x, p), write(x), fill, cfg, run-static, cij fill} on real objects in long-lived workers, "
                 "plus all 35 order-preserving interleavings of A:[new,read,read,write] with B:[new,read,write]; oracles: every write "
                 "byte-identical to the golden files, every read bit-identical to a fresh process and to itself when repeated, module-level "
                 "state digests never change, fill(fill(x)) = fill(x); non-trivial = at least one comparison made")
@@ -280,7 +295,7 @@ def explore(ctx):
            if not ctx.quick or dn == "A" or s == "1"]
     ctx.run(MOD, "run_cli_case", cli, part="subprocess-cli", chunksize=1)
     reads = READS[:3] if ctx.quick else READS[:5]
-    alphabet = [["new", "A"], ["new", "B"]] + [["read", x, p] for x in "AB" for p in reads] + [["write", "A"], ["write", "B"], ["fill"], ["cfg"]]
+    alphabet = [["new", "A"], ["new", "B"]] + [["read", x, p] for x in "AB" for p in reads] + [["write", "A"], ["write", "B"], ["fill"], ["cfg"], ["static"], ["fillcli"]]
     hist = valid_histories(alphabet, 3 if ctx.quick else 4)
     a_ops = [["new", "A"], ["read", "A", "pb_iso_c11"], ["read", "A", "pb_adi_c11"], ["write", "A"]]
     b_ops = [["new", "B"], ["read", "B", "pb_adi_c11"], ["write", "B"]]
